@@ -423,6 +423,14 @@ def run(ctx):
         # a keep-alive that gives up while the application keeps the connection open must leave nothing of its last ping behind
         c18.server_peers_check(ctx, rt, rd, random.Random(ctx.seed + 13), 300 if ctx.tier == "thorough" else 80, "C13", "retains-nothing",
                                levels=("udpnc", "tcpnc"))
+    # block-wise buffers of transfers abandoned half-way (also with transfer timeout 0): nothing may be held once every
+    # deadline has passed and both sides were swept (C04's harness and judge clause `leak`)
+    from . import c04
+    with common.Lock():
+        bt = common.build_test(ctx, "c04")
+        bd = common.build_driver(ctx, "C04")
+    if bt and bd:
+        c04.buffers_check(ctx, bt, bd, "C13", "retains-nothing")
     return common.finish(ctx)
 
 
@@ -435,6 +443,13 @@ def replay(ctx, rep):
     if lines[0].startswith("rcfg") or lines[0].startswith("conns") or lines[0].startswith("ctor") or rep.get("server_peers"):
         from . import c18
         return c18.replay(ctx, rep)
+    if str(rep.get("replay_with", "")).startswith("bin/check C04"):
+        # a block-wise history of the shared sub-check (c04.buffers_check): C04's harness and judge
+        from . import c04
+        rc = c04.replay(ctx, rep)
+        if rc:
+            print("VIOLATION property=C13 replay=(replayed) still reproduces")
+        return rc
     res = evaluate(ctx, art, lines, tag="replay")
     if res is None:
         print("replay could not run", ctx.broken)
